@@ -63,6 +63,14 @@ def gen_scenario(rng, k):
     g = docs.Gen(rng, hostile=rng.choice([0.1, 0.3, 0.5]), rich=rng.choice([0.4, 0.6]))
     v = rng.choice(['1.0', '1.1', '1.2', '1.3', '1.3'])
     base = g.lexicon('a', '1', v)
+    if v == '1.0' and rng.random() < 0.5:
+        # entry-level frames (WN-LMF 1.0): an entry with two frames that name no senses (= all its senses), and a
+        # later entry using one of the two frame strings for one of its own senses
+        es = [e for e in base.get('entries', []) if e.get('senses')]
+        if len(es) >= 2:
+            A, B = es[0], es[-1]
+            A['frames'] = [{'subcategorizationFrame': 'Somebody ----s something'}, {'subcategorizationFrame': 'Something ----s'}]
+            B['frames'] = [{'subcategorizationFrame': rng.choice(['Somebody ----s something', 'Something ----s']), 'senses': [B['senses'][0]['id']]}]
     lexs = [base]
     if rng.random() < 0.4:
         lexs.append(g.lexicon('b', rng.choice(['1', '2.0+x']), v, requires=[{'id': 'a', 'version': '1'}] if rng.random() < 0.5 else None))
